@@ -300,6 +300,9 @@ struct Sched {
     parked: HashMap<String, String>,
     release: HashSet<String>,
     finished: HashSet<String>,
+    /// threads the harness did not spawn (the specfile watcher): they count as finished as soon
+    /// as they are released from this point
+    finish_after: HashMap<String, String>,
     log: Vec<(String, String)>,
 }
 
@@ -350,6 +353,10 @@ fn sched_maybe_park(tname: &str, point: &str) {
                 }
                 if s.release.remove(tname) {
                     s.parked.remove(tname);
+                    if s.finish_after.get(tname).map(String::as_str) == Some(point) {
+                        s.finished.insert(tname.to_string());
+                        SCHED_CV.notify_all();
+                    }
                     return;
                 }
             }
@@ -358,6 +365,14 @@ fn sched_maybe_park(tname: &str, point: &str) {
             .wait_timeout(g, Duration::from_millis(200))
             .unwrap_or_else(std::sync::PoisonError::into_inner)
             .0;
+    }
+}
+
+/// A controlled thread that the harness did not spawn finishes when released from `point`.
+pub fn sched_finish_after(tname: &str, point: &str) {
+    let mut g = lock_sched();
+    if let Some(s) = g.as_mut() {
+        s.finish_after.insert(tname.to_string(), point.to_string());
     }
 }
 
